@@ -516,6 +516,98 @@ def rule_OD11(rep, prog_io):
         rep.unknown(rid, "fewer than 15 retain-then-submit sites found in io.c (%d)" % n)
 
 
+def rule_OD13(rep, prog, q):
+    rid = rep.rule("C17-OD13", "last external release of a runloop queue: the queue is unbound from its thread (_dispatch_queue_clear_bound_thread clears the drain owner) "
+                   "BEFORE the hand-over wakeup - a wakeup that still sees an owner only marks the queue DIRTY and enqueues nothing, so the last internal release "
+                   "would dispose of a queue that still has items", floor=1)
+    fn = prog.fn("_dispatch_runloop_queue_xref_dispose")
+    rep.saw(fn)
+    wk = icalls_slot(prog, fn, "dq_wakeup") + calls_named(fn, ("_dispatch_runloop_queue_wakeup", "_dispatch_lane_wakeup", "_dispatch_queue_wakeup"))
+    clr = calls_named(fn, "_dispatch_queue_clear_bound_thread") + \
+          [i for i in fn.all_insts() if i.op == "atomicrmw" and i.d.get("rmw") == "and" and prog.fields(i) & DQ_STATE and i.ops[-1][0] == "c" and not (i.ops[-1][1] & q.OWNER)]
+    if not wk:
+        rep.unknown(rid, "_dispatch_runloop_queue_xref_dispose: hand-over wakeup not found")
+        return
+    for w in wk:
+        rep.require(rid, any(fn.dominates(c, w) and c is not w for c in clr), w.loc, fn.name, "wakeup-before-unbind",
+                    "_dispatch_runloop_queue_xref_dispose wakes the queue while it is still bound to (drain-locked by) its thread: the wakeup sets DIRTY only, nothing is "
+                    "enqueued, and the queue is finalised with items still pending (they never run; `Release of a queue while items are enqueued`)",
+                    sample={"wakeup": w.loc, "unbind": [c.loc for c in clr]})
+
+
+def rule_SB14(rep, progs):
+    rid = rep.rule("C17-SB14", "list walks that unlink, re-link or free the current node read its successor first (the TAILQ_FOREACH_SAFE discipline): in every loop whose "
+                   "cursor advances through node->te_next, the load of te_next dominates every store to that node's link fields and every free() of the node - "
+                   "otherwise the walk stops early (destructors / cleanups of the remaining entries never run, their memory leaks) or reads freed memory", floor=2)
+    n = 0
+    for prog in progs:
+        for fn in prog.all_functions():
+            for P in fn.all_insts():
+                if P.op != "phi":
+                    continue
+                # successor loads feeding the cursor (possibly through another phi)
+                loads, seen, work = [], set(), [v for v, frm in P.ops]
+                while work:
+                    v = work.pop()
+                    if v[0] != "i" or v[1] in seen:
+                        continue
+                    seen.add(v[1])
+                    i = fn.insts[v[1]]
+                    if i.op == "phi" and len(seen) < 6:
+                        work.extend(x for x, frm in i.ops)
+                    elif i.op == "load" and i.d.get("ptr") and tuple(root_ptr(fn, i.d["ptr"]["base"])[:2]) == ("i", P.id) and "te_next" in prog.fields(i):
+                        loads.append(i)
+                if not loads:
+                    continue
+                kills = []
+                for k_ in fn.all_insts():
+                    if k_.op == "store" and k_.d.get("ptr") and tuple(root_ptr(fn, k_.d["ptr"]["base"])[:2]) == ("i", P.id) and prog.fields(k_) & {"te_next", "te_prev"}:
+                        kills.append(k_)
+                    elif k_.op == "call" and k_.callee in ("free", "_dispatch_continuation_free", "_dispatch_release", "dispatch_release") and \
+                            any(tuple(root_ptr(fn, o)[:2]) == ("i", P.id) for o in k_.ops):
+                        kills.append(k_)
+                if not kills:
+                    continue
+                n += 1
+                rep.saw(fn)
+                bad = [k_ for k_ in kills if not any(fn.dominates(l, k_) for l in loads)]
+                if bad:
+                    # the -O0 shape of `(var) && ((tvar) = next, 1)` joins the null and non-null cursor before the body: decide by feasible paths from the cursor
+                    hits = paths.walk(fn, P, lambda i: i in bad, avoid=lambda i: i in loads)
+                    bad = [h[1] for h in hits if h[0] == "hit"]
+                rep.require(rid, not bad, (bad[0].loc if bad else P.loc), fn.name, "successor-read-after-node-modified:%s" % fn.name,
+                            "%s walks a list through node->te_next but reads the successor only after the node was re-linked into another list or freed: the walk "
+                            "follows the new (NULL) link and stops after the first such entry - the remaining entries are never processed (for queue-specific data: "
+                            "their destructors never run and the nodes leak) - or it reads the link out of freed memory" % fn.name,
+                            sample={"fn": fn.name, "kills": [k_.loc for k_ in bad[:3]]})
+    if n < 2:
+        rep.unknown(rid, "fewer than 2 unlinking list walks found (%d)" % n)
+
+
+def rule_OD15(rep, prog):
+    rid = rep.rule("C17-OD15", "a source that gave up its registration reference (DSF_DELETED, _dispatch_source_refs_finalize_unregistration) can never be installed "
+                   "afterwards: every finalisation happens with ds_is_installed already true - set on the way (activation of a cancelled source, failed "
+                   "registration) or implied by an unregistration / a kernel event of the registered unote - so _dispatch_source_install (guarded by "
+                   "!ds_is_installed) cannot register the unote of a source nobody keeps alive for it", floor=4)
+    n = 0
+    EVENT_SIDE = {"_dispatch_source_merge_evt": "called for an event of a unote that was registered, which only an installed source has"}
+    for fn in prog.all_functions():
+        for c in calls_named(fn, "_dispatch_source_refs_finalize_unregistration"):
+            n += 1
+            rep.saw(fn)
+            sets = [st for st in fn.all_insts() if st.op == "store" and "ds_is_installed" in prog.fields(st) and fn.inst(st.ops[0]) is not None
+                    and fn.inst(st.ops[0]).op == "or" and fn.inst(st.ops[0]).ops[1][0] == "c" and fn.inst(st.ops[0]).ops[1][1] & 1]
+            unreg = calls_named(fn, "_dispatch_unote_unregister")
+            ok = any(fn.dominates(x, c) for x in sets + unreg) or fn.name in EVENT_SIDE
+            rep.require(rid, ok, c.loc, fn.name, "finalized-but-not-marked-installed:%s" % fn.name,
+                        "%s finalises the source's unregistration (DSF_DELETED set, the registration reference released) without ds_is_installed being set: the next "
+                        "invoke still sees `not installed`, goes to the manager and registers the unote with the kernel after the reference that keeps the source alive "
+                        "for a registered unote is gone - nothing ever unregisters it, and an event after the last release touches freed memory" % fn.name,
+                        sample={"site": c.loc})
+    if n < 4:
+        rep.unknown(rid, "fewer than 4 calls of _dispatch_source_refs_finalize_unregistration found (%d)" % n)
+
+
 def rule_WR8(rep, prog, q):
     rid = rep.rule("C17-WR8", "the queue recorded in a block object's private data carries +2 exactly while it is recorded: dbpd_queue is installed only by a "
                    "compare-exchange from NULL whose success edge retains that queue (+2), and taken back only by an exchange with NULL (whose result is released)", floor=4)
@@ -595,12 +687,18 @@ def run(rep, tier="quick", srcdir=None, only=None):
         rule_MP9(rep, prog, q)
     if want("C17-OD10"):
         rule_OD10(rep, prog, q)
-    if want("C17-OD11") or want("C17-OD12"):
+    if want("C17-OD13"):
+        rule_OD13(rep, prog, q)
+    if want("C17-OD15"):
+        rule_OD15(rep, prog)
+    if want("C17-OD11") or want("C17-OD12") or want("C17-SB14"):
         pio, _u = load(["io"], tier, srcdir)
         if want("C17-OD11"):
             rule_OD11(rep, pio)
         if want("C17-OD12"):
             rule_OD12(rep, prog, pio, prog)
+        if want("C17-SB14"):
+            rule_SB14(rep, [prog] if tier == "thorough" else [prog, pio])
     if want("C13-OD2"):
         C13.rule_OD2(rep, prog)      # data objects: returned / stored sub-objects are retained (destructors run exactly once)
     if want("C13-WM3"):
@@ -608,7 +706,7 @@ def run(rep, tier="quick", srcdir=None, only=None):
 
 
 MANIFEST = {
-    "technique": "path-sensitive reference-pairing rules (retain before publish, CONSUME_2 iff entitled), dominating-condition rules and ordering rules over the LLVM IR + block-capture ownership rule on io.c (a completion block that releases a capture was given that reference before every submission)",
+    "technique": "path-sensitive reference-pairing rules (retain before publish, CONSUME_2 iff entitled), dominating-condition rules and ordering rules over the LLVM IR + block-capture ownership rule on io.c (a completion block that releases a capture was given that reference before every submission) + feasible-path successor-before-unlink rule on list walks, typestate rule installed-before-finalised on sources, unbind-before-wakeup ordering on runloop queues",
     "level": "the named pairings only: +2 on first push / suspend and its consumption, the entitlement condition of every CONSUME_2 in the in-place barrier "
              "completion, group self-retain keyed on the count field, the release chain and finalizer ordering in _dispatch_dispose, data sub-object ownership. "
              "General absence of use-after-free (whole-program ownership) is NOT decided",
